@@ -9,7 +9,10 @@ _report_lock = threading.Lock()
 VERIF = os.path.dirname(os.path.dirname(os.path.abspath(__file__)))
 SPEC = os.path.join(VERIF, "spec")
 HARNESS = os.path.join(VERIF, "harness")
-REPO = "/repo"
+# the registered checks always build from /repo; bin/seedtest may point a run at
+# a scratch copy carrying a seeded change (never used by MANIFEST commands)
+REPO = os.environ.get("VERIF_REPO", "/repo")
+EVIDENCE_DIR = os.environ.get("VERIF_EVIDENCE", os.path.join(VERIF, "evidence"))
 GOENV = dict(GOFLAGS="-mod=mod", GOPROXY="off", GOSUMDB="off", GOTOOLCHAIN="local")
 
 
@@ -23,7 +26,7 @@ class Ctx:
         self.tier = tier
         self.seed = seed
         self.t0 = time.time()
-        self.work = os.path.join(VERIF, "work", prop)
+        self.work = os.path.join(VERIF, "work", prop if REPO == "/repo" else "seed-" + prop)
         shutil.rmtree(self.work, ignore_errors=True)
         os.makedirs(self.work, exist_ok=True)
         self.violations = []       # dicts: cat, detail, replay
@@ -42,11 +45,18 @@ class Ctx:
     # ------------------------------------------------------------ building
     def build(self):
         """Build the Go harness against /repo's *current working tree*."""
-        shutil.copyfile(os.path.join(REPO, "go.sum"), os.path.join(HARNESS, "go.sum"))
         out = os.path.join(self.work, "gkvdrive")
         env = dict(os.environ, **GOENV)
+        hsrc = HARNESS
+        if REPO != "/repo":
+            # scratch copy of the harness whose replace directive points at the scratch repository
+            hsrc = os.path.join(self.work, "harness-src")
+            shutil.copytree(HARNESS, hsrc)
+            gm = open(os.path.join(hsrc, "go.mod")).read().replace("=> /repo", "=> " + REPO)
+            open(os.path.join(hsrc, "go.mod"), "w").write(gm)
+        shutil.copyfile(os.path.join(REPO, "go.sum"), os.path.join(hsrc, "go.sum"))
         p = subprocess.run(["go", "build", "-tags", "verif", "-o", out, "./cmd/gkvdrive"],
-                           cwd=HARNESS, env=env, capture_output=True, text=True)
+                           cwd=hsrc, env=env, capture_output=True, text=True)
         if p.returncode != 0:
             raise Broken("harness build failed:\n" + p.stdout + p.stderr)
         self.bin = out
@@ -102,7 +112,7 @@ class Ctx:
         m = re.search(r"Invariant (\w+) is violated", out)
         if m:
             res["inv"] = m.group(1)
-        m = re.search(r"Temporal properties were violated", out)
+        m = re.search(r"Temporal propert(y|ies) .*violated", out)
         if m:
             res["inv"] = "temporal"
         for m in re.finditer(r'<<"MISMATCH", (\d+), "([^"]*)">>', out):
@@ -297,8 +307,8 @@ class Ctx:
         cov.update(self.coverage_extra)
         ev = dict(property_id=self.prop, tier=self.tier, seed=self.seed, level=level, coverage=cov,
                   assumptions=assumptions, wall_s=round(wall, 1), violations=len(self.violations))
-        os.makedirs(os.path.join(VERIF, "evidence"), exist_ok=True)
-        with open(os.path.join(VERIF, "evidence", self.prop + ".json"), "w") as f:
+        os.makedirs(EVIDENCE_DIR, exist_ok=True)
+        with open(os.path.join(EVIDENCE_DIR, self.prop + ".json"), "w") as f:
             json.dump(ev, f, indent=1)
         seen = set()
         for k, cat in self.known_hits:
